@@ -31,6 +31,7 @@ pub const SUITES: &[Suite] = &[
     Suite { name: "C13", gen, exec },
     Suite { name: "C14adapt", gen, exec },
     Suite { name: "C13fd", gen: gen_fd, exec: exec_fd },
+    Suite { name: "C13big", gen: gen_big, exec: exec_big },
 ];
 
 const CANARY: u8 = 197;
@@ -112,7 +113,7 @@ fn set_nonblock(fd: i32) {
 }
 fn drain(fd: i32) -> Vec<u8> {
     let mut out = Vec::new();
-    let mut b = [0u8; 256];
+    let mut b = [0u8; 65536];
     loop {
         let r = unsafe { libc::read(fd, b.as_mut_ptr() as *mut libc::c_void, b.len()) };
         if r <= 0 {
@@ -192,6 +193,10 @@ pub(crate) enum Stream {
     CurW { back: Backing, c: Cursor<&'static mut [u8]> },
     FileS { f: File, path: std::path::PathBuf },
     Sock { a: UnixStream, b: UnixStream },
+    /// TcpStream over a 127.0.0.1 loopback pair; `a` is the end under test.  `open`: the peer keeps its sending side open
+    Tcp { a: std::net::TcpStream, b: std::net::TcpStream, open: bool },
+    /// a pipe that `std::io::Stdout` writes to while fd 1 is redirected onto `wr` (vm) / that a File twin writes to
+    StdoutPipe { wr: OwnedFd, out_rd: OwnedFd, vm: bool },
     /// incoming pipe read end, outgoing pipe write end, drain end of the outgoing pipe
     PipeVm { rd: OwnedFd, wr: OwnedFd, out_rd: OwnedFd },
     PipeTw { rd: File, wr: File, out_rd: OwnedFd },
@@ -273,6 +278,21 @@ impl Stream {
                     Stream::PipeTw { rd: File::from(rd), wr: File::from(wr), out_rd }
                 }
             }
+            16 | 17 => {
+                let (a, mut b) = tcp_pair();
+                b.write_all(content).unwrap();
+                if kind == 16 {
+                    b.shutdown(std::net::Shutdown::Write).unwrap();
+                }
+                wait_arrival(a.as_raw_fd(), content.len(), kind == 16);
+                set_nonblock(b.as_raw_fd());
+                Stream::Tcp { a, b, open: kind == 17 }
+            }
+            18 => {
+                let (out_rd, wr) = make_pipe();
+                set_nonblock(out_rd.as_raw_fd());
+                Stream::StdoutPipe { wr, out_rd, vm }
+            }
             _ => panic!("bad kind"),
         }
     }
@@ -314,6 +334,11 @@ impl Stream {
                 (std::fs::read(&*path).unwrap(), pos, vec![])
             }
             Stream::Sock { a, b } => (vec![], queued(a.as_raw_fd()), drain(b.as_raw_fd())),
+            Stream::Tcp { a, b, .. } => {
+                wait_sent(a.as_raw_fd());
+                (vec![], queued(a.as_raw_fd()), drain(b.as_raw_fd()))
+            }
+            Stream::StdoutPipe { out_rd, .. } => (vec![], 0, drain(out_rd.as_raw_fd())),
             Stream::PipeVm { rd, out_rd, .. } => (vec![], queued(rd.as_raw_fd()), drain(out_rd.as_raw_fd())),
             Stream::PipeTw { rd, out_rd, .. } => (vec![], queued(rd.as_raw_fd()), drain(out_rd.as_raw_fd())),
         }
@@ -786,6 +811,7 @@ fn gen(rng: &mut Rng, tier: Tier, emit: &mut dyn FnMut(Vec<Tok>)) {
 // real call when the script is over).  The std twin is a std::fs::File around a twin descriptor under the SAME
 // script (std's read_exact / write_all loops go through the same intercepted calls).
 // case:  mode kind [content] pos (opcode [arg] [script])*
+//   kind 16 TcpStream (127.0.0.1 loopback, peer shut down) 17 TcpStream, peer stays open (one read) 18 Stdout (fd 1 onto a pipe)
 //   kind 5 File  6 UnixStream  7 pipe (OwnedFd)   13 / 14 / 15: the same through VolatileSlice::{read_volatile_from,
 //        read_exact_volatile_from, write_volatile_to, write_all_volatile_to}(0, fd, len) (14 as BorrowedFd)
 //   script element 0 Full 1 Zero 2 Eintr 3..8 hard error (EIO EAGAIN EBADF ENOSPC EPIPE ECONNRESET) 16+k Short k
@@ -798,6 +824,8 @@ impl Stream {
         match self {
             Stream::FileS { f, .. } => f.as_raw_fd(),
             Stream::Sock { a, .. } => a.as_raw_fd(),
+            Stream::Tcp { a, .. } => a.as_raw_fd(),
+            Stream::StdoutPipe { wr, vm, .. } => if *vm { 1 } else { wr.as_raw_fd() },
             Stream::PipeVm { rd, wr, .. } => if is_read { rd.as_raw_fd() } else { wr.as_raw_fd() },
             Stream::PipeTw { rd, wr, .. } => if is_read { rd.as_raw_fd() } else { wr.as_raw_fd() },
             _ => panic!("not a descriptor stream"),
@@ -850,8 +878,96 @@ impl Stream {
                     run!(wr)
                 }
             }
+            Stream::Tcp { a, .. } => run!(a),
+            Stream::StdoutPipe { wr, .. } => {
+                assert!(opc >= 2, "Stdout is a writer");
+                // fd 1 is redirected onto the pipe for the duration of the call (restored also on a panic)
+                let _redir = Redirect1::onto(wr.as_raw_fd());
+                let mut so = std::io::stdout();
+                let vs = VolatileSlice::from(b);
+                if opc == 2 {
+                    vn(so.write_volatile(&vs))
+                } else {
+                    vu(so.write_all_volatile(&vs))
+                }
+            }
             _ => panic!("not a vm-memory descriptor stream"),
         }
+    }
+}
+
+/// fd 1 redirected onto another descriptor; undone on drop
+struct Redirect1 {
+    saved: i32,
+}
+impl Redirect1 {
+    fn onto(fd: i32) -> Redirect1 {
+        let saved = unsafe { libc::dup(1) };
+        assert!(saved >= 0);
+        assert!(unsafe { libc::dup2(fd, 1) } == 1);
+        Redirect1 { saved }
+    }
+}
+impl Drop for Redirect1 {
+    fn drop(&mut self) {
+        unsafe {
+            libc::dup2(self.saved, 1);
+            libc::close(self.saved);
+        }
+    }
+}
+
+fn force_bufs(fd: i32, bytes: i32) {
+    // SO_SNDBUFFORCE / SO_RCVBUFFORCE (root): large single transfers must fit the socket buffers
+    for opt in [32, 33] {
+        unsafe { libc::setsockopt(fd, libc::SOL_SOCKET, opt, &bytes as *const i32 as *const libc::c_void, 4) };
+    }
+}
+pub(crate) fn tcp_pair() -> (std::net::TcpStream, std::net::TcpStream) {
+    let l = std::net::TcpListener::bind("127.0.0.1:0").expect("loopback listener");
+    force_bufs(l.as_raw_fd(), 16 << 20);
+    let sock = unsafe { libc::socket(libc::AF_INET, libc::SOCK_STREAM | libc::SOCK_CLOEXEC, 0) };
+    assert!(sock >= 0);
+    force_bufs(sock, 16 << 20);
+    let addr = l.local_addr().unwrap();
+    let sa = libc::sockaddr_in {
+        sin_family: libc::AF_INET as u16,
+        sin_port: addr.port().to_be(),
+        sin_addr: libc::in_addr { s_addr: u32::from_ne_bytes([127, 0, 0, 1]) },
+        sin_zero: [0; 8],
+    };
+    let r = unsafe { libc::connect(sock, &sa as *const libc::sockaddr_in as *const libc::sockaddr, std::mem::size_of::<libc::sockaddr_in>() as u32) };
+    assert!(r == 0, "loopback connect");
+    let a = unsafe { std::net::TcpStream::from_raw_fd(sock) };
+    let (b, _) = l.accept().unwrap();
+    a.set_nodelay(true).unwrap();
+    b.set_nodelay(true).unwrap();
+    (a, b)
+}
+/// waits until `n` bytes (and, if `fin`, the peer's FIN) have arrived at `fd`
+pub(crate) fn wait_arrival(fd: i32, n: usize, fin: bool) {
+    let t0 = std::time::Instant::now();
+    loop {
+        let mut pfd = libc::pollfd { fd, events: libc::POLLIN | libc::POLLRDHUP, revents: 0 };
+        unsafe { libc::poll(&mut pfd, 1, 0) };
+        let hup = pfd.revents & libc::POLLRDHUP != 0;
+        if queued(fd) as usize >= n && (!fin || hup) {
+            return;
+        }
+        assert!(t0.elapsed().as_secs() < 5, "loopback data did not arrive");
+        std::thread::yield_now();
+    }
+}
+/// waits until everything written to `fd` has been acknowledged by the peer (SIOCOUTQ = 0)
+pub(crate) fn wait_sent(fd: i32) {
+    let t0 = std::time::Instant::now();
+    loop {
+        let mut k: libc::c_int = 0;
+        unsafe { libc::ioctl(fd, libc::TIOCOUTQ, &mut k) };
+        if k == 0 || t0.elapsed().as_secs() >= 5 {
+            return;
+        }
+        std::thread::yield_now();
     }
 }
 
@@ -871,7 +987,41 @@ fn fd_step(s: &mut Stream, vm: bool, route: bool, opc: u64, arg: &Tok, script: &
     let mut arena = vec![CANARY; len + 2 * MARGIN];
     arena[MARGIN..MARGIN + len].copy_from_slice(&buf);
     let fd = s.raw_fd(opc <= 1);
+    // Open-peer TCP (kind 17): a read must return what is AVAILABLE.  Should it wait for the buffer to fill instead, a
+    // helper sends the missing bytes one second after the call has started, so that the wrong count becomes visible
+    // (for a read that returns at once the helper sends nothing: the outcome does not depend on timing).
+    let rescue = match s {
+        Stream::Tcp { b, open: true, .. } if opc <= 1 => {
+            let mut peer = b.try_clone().unwrap();
+            let started = std::sync::Arc::new(std::sync::atomic::AtomicBool::new(false));
+            let done = std::sync::Arc::new(std::sync::atomic::AtomicBool::new(false));
+            let (st2, dn2) = (started.clone(), done.clone());
+            let h = std::thread::spawn(move || {
+                while !st2.load(Ordering::SeqCst) {
+                    std::thread::yield_now();
+                }
+                let t0 = std::time::Instant::now();
+                while !dn2.load(Ordering::SeqCst) {
+                    if t0.elapsed().as_millis() >= 1000 {
+                        let _ = peer.set_nonblocking(false);
+                        let _ = peer.write_all(&vec![0xEE; len]);
+                        return;
+                    }
+                    std::thread::sleep(std::time::Duration::from_millis(2));
+                }
+            });
+            Some((h, started, done))
+        }
+        _ => None,
+    };
+    if let Some((_, started, _)) = &rescue {
+        started.store(true, Ordering::SeqCst);
+    }
     let (rc, calls) = fdscript::with_script(fd, script, || s.fd_op(vm, route, opc, &mut arena, len));
+    if let Some((h, _, done)) = rescue {
+        done.store(true, Ordering::SeqCst);
+        let _ = h.join();
+    }
     let rc = rc.unwrap_or((8, 0));
     let ok = arena[..MARGIN].iter().all(|&x| x == CANARY) && arena[MARGIN + len..].iter().all(|&x| x == CANARY);
     (rc, arena[MARGIN..MARGIN + len].to_vec(), ok, calls)
@@ -886,12 +1036,19 @@ fn exec_fd_inner(case: &[Tok]) -> Vec<Tok> {
     let (base, route) = match kind {
         5 | 6 | 7 => (kind, false),
         13 | 14 | 15 => (kind - 8, true),
+        16 | 17 | 18 => (kind, false),
         _ => panic!("bad kind"),
     };
     let content = case[2].bytes();
     let pos = case[3].u();
     assert!((case.len() - 4) % 3 == 0);
     let ops: Vec<(u64, &Tok, Vec<Beh>)> = case[4..].chunks(3).map(|op| (op[0].u(), &op[1], script_of(&op[2]))).collect();
+    if kind == 17 && !(ops.len() == 1 && ops[0].0 == 0 && !content.is_empty()) {
+        panic!("open-peer TCP: exactly one read of a stream that holds data");
+    }
+    if kind == 18 && ops.iter().any(|op| op.0 != 2 && op.0 != 3) {
+        panic!("Stdout is a writer");
+    }
     if base == 5 && (pos > 65536 || ops.iter().any(|op| op.0 == 4 && op.1.l()[0] > 65536)) {
         panic!("file offset out of the supported range");
     }
@@ -970,13 +1127,20 @@ fn gen_fd(rng: &mut Rng, tier: Tier, emit: &mut dyn FnMut(Vec<Tok>)) {
         frontier = next;
     }
     let mut i = 0u64;
-    for kind in [5u64, 6, 7, 13, 14, 15] {
+    for kind in [5u64, 6, 7, 13, 14, 15, 16, 18] {
         for slen in [0usize, 2, 8, 11] {
             for blen in [0usize, 1, 5, 9] {
                 for opc in 0..4u64 {
                     for sc in &scripts {
                         i += 1;
                         if quick && i % 2 != 0 {
+                            continue;
+                        }
+                        // Stdout only writes (and has no incoming stream); loopback pairs are slower: a third of them
+                        if kind == 18 && (opc <= 1 || slen != 0) {
+                            continue;
+                        }
+                        if kind == 16 && quick && i % 6 != 0 {
                             continue;
                         }
                         let content = pattern(rng, slen);
@@ -988,10 +1152,21 @@ fn gen_fd(rng: &mut Rng, tier: Tier, emit: &mut dyn FnMut(Vec<Tok>)) {
             }
         }
     }
+    // 1b. TcpStream whose peer stays OPEN and has sent fewer bytes than the buffer holds: a read returns what is
+    //     available (never waits for the buffer to fill), with and without a script
+    for slen in [1usize, 3, 8] {
+        for blen in [0usize, 1, 3, 5, 9, 20] {
+            for sc in [&[][..], &[0], &[18], &[2], &[4], &[1]] {
+                let content = pattern(rng, slen);
+                let buf = pattern(rng, blen);
+                raw(17, &content, 0, &[(0, Tok::of_bytes(&buf), sc.to_vec())]);
+            }
+        }
+    }
     // 2. random histories of up to 4 operations, every operation with its own random script
     let nhist = if quick { 16_000 } else { 300_000 };
     for _ in 0..nhist {
-        let kind = *rng.pick(&[5u64, 5, 6, 7, 13, 14, 15]);
+        let kind = *rng.pick(&[5u64, 5, 6, 7, 13, 14, 15, 5, 6, 7, 13, 14, 15, 16, 18]);
         let file = kind % 8 == 5;
         let slen = if rng.chance(1, 4) { rng.below(4) as usize } else { rng.below(21) as usize };
         let content = rng.bytes(slen);
@@ -1019,8 +1194,244 @@ fn gen_fd(rng: &mut Rng, tier: Tier, emit: &mut dyn FnMut(Vec<Tok>)) {
                     _ => sc.extend_from_slice(*rng.pick(&FD_ALPHABET)),
                 }
             }
-            ops.push((rng.below(4), Tok::of_bytes(&rng.bytes(blen)), sc));
+            let opc = if kind == 18 { 2 + rng.below(2) } else { rng.below(4) };
+            ops.push((opc, Tok::of_bytes(&rng.bytes(blen)), sc));
         }
+        let content = if kind == 18 { vec![] } else { content };
         raw(kind, &content, pos, &ops);
+    }
+}
+
+// =========================================================================================== suite C13big
+// The adapters at LARGE sizes (4095 ... 3 MiB): contents are patterns, the observation is counts plus first-difference
+// indices computed here against the expected bytes (coq/Spec/C13big.v, coq/Suite/C13big.v).
+// case:  mode kind clen pos op blen [script] cpat bpat
+//   kind 0 &[u8]  2 Vec  3 Cursor<&[u8]>  8 Cursor<Vec>  5 File  20 BorrowedFd of a File  6 UnixStream  7 OwnedFd of a UnixStream
+//        16 TcpStream (loopback)  18 Stdout (fd 1 onto a UnixStream); socket buffers enlarged (SO_SNDBUFFORCE / SO_RCVBUFFORCE)
+// obs:   adapter rk n moved d1 d2 margins rest calls apos slen   twin rk n moved d1 apos slen
+fn pat(p: u64, i: usize) -> u8 {
+    ((i * 31 + 7 + 13 * p as usize) % 251) as u8
+}
+fn pat_vec(p: u64, len: usize) -> Vec<u8> {
+    (0..len).map(|i| pat(p, i)).collect()
+}
+fn unix_pair_big() -> (UnixStream, UnixStream) {
+    let (a, b) = UnixStream::pair().unwrap();
+    force_bufs(a.as_raw_fd(), 16 << 20);
+    force_bufs(b.as_raw_fd(), 16 << 20);
+    (a, b)
+}
+fn big_stream(kind: u64, content: &[u8], pos: u64, vm: bool) -> Stream {
+    match kind {
+        0 | 2 | 3 | 8 | 5 | 16 => Stream::new(kind, content, pos, vm),
+        20 => Stream::new(5, content, pos, vm),
+        6 | 7 | 18 => {
+            let (a, mut b) = unix_pair_big();
+            b.write_all(content).unwrap();
+            b.shutdown(std::net::Shutdown::Write).unwrap();
+            set_nonblock(b.as_raw_fd());
+            match kind {
+                6 => Stream::Sock { a, b },
+                18 => Stream::StdoutPipe { wr: OwnedFd::from(a), out_rd: OwnedFd::from(b), vm },
+                _ => {
+                    let rd = OwnedFd::from(a);
+                    let wr = rd.try_clone().unwrap();
+                    let out_rd = OwnedFd::from(b);
+                    if vm {
+                        Stream::PipeVm { rd, wr, out_rd }
+                    } else {
+                        Stream::PipeTw { rd: File::from(rd), wr: File::from(wr), out_rd }
+                    }
+                }
+            }
+        }
+        _ => panic!("bad kind"),
+    }
+}
+fn first_diff(a: &[u8], from: usize, to: usize, expect: impl Fn(usize) -> Option<u8>) -> u64 {
+    for i in from..to {
+        if a.get(i).copied() != expect(i) || a.get(i).is_none() {
+            return i as u64;
+        }
+    }
+    to as u64
+}
+
+/// one big case on one stream; returns (rk, n, moved, d1, d2, margins, rest, calls, apos, slen)
+fn big_run(kind: u64, vm: bool, clen: usize, pos: u64, opc: u64, blen: usize, script: &[Beh], cpat: u64, bpat: u64) -> [u64; 10] {
+    let content = pat_vec(cpat, clen);
+    let prefill = pat_vec(bpat, blen);
+    let mut s = big_stream(kind, &content, pos, vm);
+    let is_fd = matches!(kind, 5 | 20 | 6 | 7 | 16 | 18);
+    let rd = opc <= 1;
+    let mut arena = vec![CANARY; blen + 2 * MARGIN];
+    arena[MARGIN..MARGIN + blen].copy_from_slice(&prefill);
+    let (rc, calls) = if is_fd {
+        let fd = s.raw_fd(rd);
+        fdscript::with_script(fd, script, || {
+            if kind == 20 && vm {
+                // the same regular file through BorrowedFd
+                if let Stream::FileS { f, .. } = &mut s {
+                    let mut bf = f.as_fd();
+                    let mut vs = VolatileSlice::from(&mut arena[MARGIN..MARGIN + blen]);
+                    return match opc {
+                        0 => vn(bf.read_volatile(&mut vs)),
+                        1 => vu(bf.read_exact_volatile(&mut vs)),
+                        2 => vn(bf.write_volatile(&vs)),
+                        _ => vu(bf.write_all_volatile(&vs)),
+                    };
+                }
+            }
+            s.fd_op(vm, false, opc, &mut arena, blen)
+        })
+    } else {
+        let r = util::catch(|| if rd { s.read(vm, &mut arena, blen, opc == 1) } else { s.write(vm, &mut arena, blen, opc == 3) });
+        (r, 0)
+    };
+    let rc = rc.unwrap_or((8, 0));
+    let margins = arena[..MARGIN].iter().all(|&x| x == CANARY) && arena[MARGIN + blen..].iter().all(|&x| x == CANARY);
+    let buf = &arena[MARGIN..MARGIN + blen];
+    let queue = matches!(kind, 6 | 7 | 16 | 18);
+    let (data, p, out) = s.observe_bytes();
+    // what is still queued for the reader of a byte queue (read directly, the case is over)
+    let still: Vec<u8> = if queue && kind != 18 { drain(s.raw_fd(true)) } else { vec![] };
+    let (moved, d1, d2, rest, apos, slen);
+    if rd {
+        let start = match kind {
+            3 | 8 => (pos.min(clen as u64)) as usize,
+            6 | 7 | 16 => 0,
+            _ => pos as usize,
+        };
+        moved = if queue { (clen as u64).saturating_sub(p) } else { p.wrapping_sub(pos) };
+        let m = (moved as usize).min(blen);
+        d1 = if moved as usize > blen { blen as u64 } else { first_diff(buf, 0, m, |i| content.get(start + i).copied()) };
+        d2 = first_diff(buf, m, blen, |i| Some(prefill[i]));
+        rest = if queue { still[..] == content[(moved as usize).min(clen)..] } else { data == content };
+        apos = if queue { 0 } else { p };
+        slen = if queue { p } else { data.len() as u64 };
+    } else {
+        let sink: Vec<u8> = match kind {
+            2 => data.get(clen..).map(|x| x.to_vec()).unwrap_or_default(),
+            5 | 20 => {
+                let (a, b) = (pos as usize, p as usize);
+                if b >= a && b <= data.len() { data[a..b].to_vec() } else { vec![] }
+            }
+            _ => out.clone(),
+        };
+        moved = match kind {
+            5 | 20 => p.wrapping_sub(pos),
+            _ => sink.len() as u64,
+        };
+        let m = (moved as usize).min(blen).min(sink.len());
+        d1 = if moved as usize != sink.len() || moved as usize > blen { 0 } else { first_diff(&sink, 0, m, |i| Some(prefill[i])) };
+        d2 = first_diff(buf, 0, blen, |i| Some(prefill[i]));
+        rest = match kind {
+            2 => data.len() >= clen && data[..clen] == content[..],
+            5 | 20 => {
+                // bytes before the offset: the old contents, then zeros when the offset lies past the old end; bytes
+                // behind the written range: the old contents; the size: max(old size, end of the written range)
+                let (a, b) = (pos as usize, p as usize);
+                let size_ok = data.len() == if moved > 0 { clen.max(b) } else { clen };
+                size_ok
+                    && (0..a.min(data.len())).all(|i| data[i] == if i < clen { content[i] } else { 0 })
+                    && (b..data.len()).all(|i| i < clen && data[i] == content[i])
+            }
+            18 => true,
+            _ => still == content,
+        };
+        apos = if queue || kind == 2 { 0 } else { p };
+        slen = match kind {
+            2 | 5 | 20 => data.len() as u64,
+            18 => 0,
+            _ => still.len() as u64,
+        };
+    }
+    [rc.0, rc.1, moved, d1, d2, margins as u64, rest as u64, calls, apos, slen]
+}
+
+fn exec_big(case: &[Tok]) -> Vec<Tok> {
+    fdscript::self_test();
+    fdscript::watched(|| exec_big_inner(case))
+}
+fn exec_big_inner(case: &[Tok]) -> Vec<Tok> {
+    let kind = case[1].u();
+    let clen = case[2].u();
+    let pos = case[3].u();
+    let opc = case[4].u();
+    let blen = case[5].u();
+    let script = script_of(&case[6]);
+    let (cpat, bpat) = (case[7].u(), case[8].u());
+    const MAXB: u64 = 64 << 20;
+    assert!(clen <= MAXB && blen <= MAXB && opc <= 3 && cpat < 251 && bpat < 251 && script.len() <= 16);
+    let is_fd = matches!(kind, 5 | 20 | 6 | 7 | 16 | 18);
+    assert!(is_fd || script.is_empty());
+    match kind {
+        0 => assert!(pos <= clen && opc <= 1),
+        3 | 8 => assert!(opc <= 1),
+        2 => assert!(pos == 0 && opc >= 2),
+        5 | 20 => assert!(pos <= MAXB),
+        6 | 7 | 16 => assert!(pos == 0),
+        18 => assert!(pos == 0 && opc >= 2),
+        _ => panic!("bad kind"),
+    }
+    let a = big_run(kind, true, clen as usize, pos, opc, blen as usize, &script, cpat, bpat);
+    let t = big_run(kind, false, clen as usize, pos, opc, blen as usize, &script, cpat, bpat);
+    let mut out: Vec<Tok> = a.iter().map(|x| n(*x)).collect();
+    if t[0] == 0 || t[0] == 1 {
+        out.extend([n(t[0]), n(t[1]), n(t[2]), n(t[3]), n(t[8]), n(t[9])]);
+    } else {
+        // std leaves stream and buffer unspecified after a failure
+        out.extend([n(t[0]), n(t[1]), n(0u8), n(0u8), n(0u8), n(0u8)]);
+    }
+    out
+}
+
+fn gen_big(rng: &mut Rng, tier: Tier, emit: &mut dyn FnMut(Vec<Tok>)) {
+    let mode = crate::build_mode();
+    let quick = tier == Tier::Quick;
+    const M: u64 = 1 << 20;
+    let sizes: [u64; 8] = [4095, 4096, 4097, 65536, M - 1, M, M + 1, 3 * M];
+    let mut case = |rng: &mut Rng, kind: u64, clen: u64, pos: u64, opc: u64, blen: u64, script: &[u128]| {
+        emit(vec![n(mode), n(kind), n(clen), n(pos), n(opc), n(blen), Tok::L(script.to_vec()), n(rng.below(251)), n(rng.below(251))])
+    };
+    let mut i = 0u64;
+    for kind in [0u64, 2, 3, 8, 5, 20, 6, 7, 16, 18] {
+        let is_fd = matches!(kind, 5 | 20 | 6 | 7 | 16 | 18);
+        let ops: &[u64] = match kind {
+            0 | 3 | 8 => &[0, 1],
+            2 | 18 => &[2, 3],
+            _ => &[0, 1, 2, 3],
+        };
+        // (stream length, buffer length): equal, stream shorter, stream longer
+        let mut pairs: Vec<(u64, u64)> = sizes.iter().map(|s| (*s, *s)).collect();
+        pairs.extend([(4096, 65536), (65536, 4097), (M + 1, 3 * M), (3 * M, M + 1), (3 * M, M), (M - 1, M), (0, M + 1)]);
+        for (clen, blen) in pairs {
+            for &opc in ops {
+                i += 1;
+                // the quick tier runs every large (kind, size pair) with the up-to forms (ONE call must move the whole
+                // buffer) and a third of the exact forms
+                if quick && clen >= M - 1 && (opc == 1 || opc == 3) && i % 3 != 0 {
+                    continue;
+                }
+                let clen = if kind == 18 { 0 } else { clen };
+                let pos = match kind {
+                    0 | 5 | 20 if i % 3 == 0 && clen > 100 => 100,
+                    3 | 8 if i % 3 == 0 => clen + 5,
+                    3 | 8 if i % 3 == 1 && clen > 7 => 7,
+                    _ => 0,
+                };
+                case(rng, kind, clen, pos, opc, blen, &[]);
+                if is_fd && (!quick || i % 2 == 0) {
+                    // big pieces: the first call moves at most M + 1 bytes / is interrupted / 4096 bytes then an error
+                    let k1 = 16 + (M + 1) as u128;
+                    case(rng, kind, clen, pos, opc, blen, &[k1]);
+                    case(rng, kind, clen, pos, opc, blen, &[2, 16 + 4096, 2, 0]);
+                    if !quick {
+                        case(rng, kind, clen, pos, opc, blen, &[16 + 65536, 4]);
+                        case(rng, kind, clen, pos, opc, blen, &[0, 1]);
+                    }
+                }
+            }
+        }
     }
 }
